@@ -306,26 +306,17 @@ func checkTapPrefix(run *Run, prop string, e *RealEnd, tv *TapView, failed bool)
 			data = append(data, it)
 		}
 	}
-	if !failed {
-		if len(data) != len(sent) {
-			run.fail(prop, "wire-count", "count", "%s: %d data messages on the wire, %d accepted by the API (invalid requests must write nothing)", who, len(data), len(sent))
-		}
-		for i := 0; i < len(data) && i < len(sent); i++ {
-			if int(data[i].Opcode) != sent[i].MT || string(data[i].Payload) != string(sent[i].Payload) {
-				run.fail(prop, "wire-payload", "payload", "%s: wire message %d differs from the API message (type %d/%d, %d/%d bytes)", who, i, data[i].Opcode, sent[i].MT, len(data[i].Payload), len(sent[i].Payload))
-				break
-			}
-			run.Obligations++
-		}
-		return
-	}
-	// with a failure: every wire message must match, in order, some message op (accepted or failed) — a subsequence
+	// every wire message must match, in order, some message op of the program
+	// (accepted, failed, or closed implicitly by an op whose own result says nothing about it) — a subsequence;
+	// invalid requests are not in that list, so anything they wrote is unattributable
 	j := 0
+	matched := map[*OpRec]bool{}
 	for i, it := range data {
 		found := false
 		for ; j < len(all); j++ {
 			if int(it.Opcode) == all[j].MT && string(it.Payload) == string(all[j].Payload) {
 				found = true
+				matched[all[j].Rec] = true
 				j++
 				break
 			}
@@ -336,9 +327,14 @@ func checkTapPrefix(run *Run, prop string, e *RealEnd, tv *TapView, failed bool)
 		}
 		run.Obligations++
 	}
-	// accepted messages before the failure must all be on the wire
-	if len(data) < len(sent) {
-		run.fail(prop, "accepted-not-on-wire", "missing", "%s: %d messages were reported as sent but only %d complete messages are on the wire", who, len(sent), len(data))
+	// every message the API reported as sent must be on the wire
+	_ = failed
+	_ = sent
+	for _, m := range sent {
+		if !matched[m.Rec] {
+			run.fail(prop, "accepted-not-on-wire", "missing", "%s: a message of %d bytes was reported as sent but is not complete on the wire (%d complete messages there)", who, len(m.Payload), len(data))
+			break
+		}
 	}
 }
 
